@@ -145,13 +145,15 @@ def compile_modified_block(
     call = dfg.builder.add_op(
         ops.CallIndirect(),
         call,
-        *ctrl_args,
+        # Every control modifier prepends its register to the function type, so the
+        # register of the last modifier comes first
+        *reversed(ctrl_args),
         *args,
     )
     outports = iter(call)
 
     # Unpack controls
-    for i, control in enumerate(modified_block.control):
+    for i, control in reversed(list(enumerate(modified_block.control))):
         outport = next(outports)
         if is_array_type(get_type(control.ctrl[0])):
             control_array = dfg.builder.add_op(
